@@ -475,6 +475,10 @@ def incProg (s : Nat) (k : Key) : Nat → List Instr
 /-- `tasks.Unit.FromScope`, `envs.Unit.Envs`, `waits.WaitManager.ForScope` -/
 def getOrCreate (s : Nat) (k : Key) : List Instr := [.lock s, .lget k, .lcreate k, .commit]
 
+/-- `n` goroutines each running `prog`, next to goroutines running the programs `others` -/
+def initSt (ss : Scopes) (n : Nat) (prog : List Instr) (others : List (List Instr)) (fresh : Nat) : St :=
+  { scopes := ss, threads := List.replicate n (Thread.start prog) ++ others.map Thread.start, fresh := fresh }
+
 /-- plain traffic of another goroutine that does not overwrite key `c` of scope `s`:
 `SetValue` elsewhere, `Value` and `Keys` anywhere -/
 def noiseOK (s : Nat) (c : Key) : Instr → Bool
@@ -484,6 +488,16 @@ def noiseOK (s : Nat) (c : Key) : Instr → Bool
   | _ => false
 
 def isNoise (s : Nat) (c : Key) (p : List Instr) : Bool := p.all (noiseOK s c)
+
+/-- the scope named by an instruction exists -/
+def instrValid (len : Nat) : Instr → Bool
+  | .set s _ _ => decide (s < len)
+  | .get s _ => decide (s < len)
+  | .keys s => decide (s < len)
+  | .lock s => decide (s < len)
+  | _ => true
+
+def progValid (len : Nat) (p : List Instr) : Bool := p.all (instrValid len)
 
 /-- plain traffic that never writes key `c` (on any scope) -/
 def keyNoiseOK (c : Key) : Instr → Bool
